@@ -653,15 +653,19 @@ pub fn run_reader_dev(dev: &Dev, ops: &[Value], ctx: &ReadCtx, t: &mut TraceOut)
 
 /// Read files produced by the independent encoder: each input line is {"name", "scene", "bytes"}.
 /// Emits reset, s_scene, final and the reader events.
-pub fn read_cases(cases: &str, out: &str) -> std::io::Result<()> {
+pub fn read_cases(cases: &str, from: usize, out: &str) -> std::io::Result<()> {
     use std::io::{BufRead, Write};
-    let mut t = TraceOut::create(out)?;
+    // appends, and reports the case in progress, so that a supervisor can attribute an abort and resume behind it
+    let mut t = TraceOut::append(out)?;
+    let progress = format!("{out}.progress");
     let f = std::io::BufReader::new(std::fs::File::open(cases)?);
     for (i, line) in f.lines().enumerate() {
         let line = line?;
-        if line.trim().is_empty() {
+        if i < from || line.trim().is_empty() {
             continue;
         }
+        t.f.flush()?;
+        std::fs::write(&progress, format!("{i}"))?;
         let c: Value = serde_json::from_str(&line).expect("case json");
         let img: Vec<u8> = c["bytes"].as_array().unwrap().iter().map(|x| x.as_u64().unwrap() as u8).collect();
         t.ev(json!({"ev":"reset","run":i,"name":c["name"]}));
@@ -676,7 +680,8 @@ pub fn read_cases(cases: &str, out: &str) -> std::io::Result<()> {
         ops.push(json!({"op":"xml"}));
         run_reader(&img, &ops, &ReadCtx { direct_blobs: vec![] }, &mut t);
     }
-    t.f.flush()
+    t.f.flush()?;
+    std::fs::write(&progress, "done")
 }
 
 /// Run a list of programs (NDJSON, one program per line): write, snapshot, read back.
